@@ -184,3 +184,28 @@ def run_definition(ctx, P):
     ref = expected(ctx, name, kw2, cs, x)
     compare_series(ctx, name, got, ref)
     return ind, cs, got, ref, x
+
+
+def run_swap(ctx, P):
+    """a member is removed from a Hexital and one that generates the SAME name but reads another input is added:
+    its readings follow the definition over its own input (nothing of the removed member may survive on the candles)"""
+    _, _, Candle, _, Hexital = lib()
+    kind, name, kw = P["spec"][:3]
+    n = P["n"]
+    cs = mk_candles(ctx, n)
+    first = build(name, dict(kw), round_value=RV)
+    hx = Hexital("hx", cs, [first])
+    hx.calculate()
+    nm = first.name
+    kw2 = dict(kw, input_value=P["input"])
+    second = build(name, dict(kw2), round_value=RV)
+    if not ctx.require("same generated name", second.name == nm, f"{second.name!r} vs {nm!r}"):
+        return
+    hx.remove_indicator(nm)
+    ctx.require("removed member left no entry behind", all(nm not in c.indicators and not any(k == nm or k.startswith(nm + "_") for k in c.sub_indicators) for c in cs),
+                "entries of the removed member are still on the candles")
+    hx.add_indicator(second)
+    hx.calculate()
+    got = hx.reading_as_list(nm)
+    ctx.observe("readings", got)
+    compare_series(ctx, name, got, expected(ctx, name, kw2, cs, None))
